@@ -57,6 +57,7 @@ def run(ctx, res):
     for cfg in cfgs:
         lib = lib_crate(ctx.crates(cfg))
         ses, words, I = session.process_byte_words(lib)
+        words = session.shaped(words)      # flushes are C15's; an empty text skipped = an empty write
         if not ses.has_history:
             # history feature off in this config: Up/Down must have the empty word (also C16)
             for key in ('Up', 'Down'):
